@@ -6,7 +6,7 @@ from gencheck import *
 
 def run(tier):
     C = Check('C16', tier)
-    C.prove('Properties/C16.v', bridges={'Model/Recover.v': []})
+    C.prove('Properties/C16.v', bridges={'Model/Recover.v': [], 'Properties/C02R.v': []})
     C.cov['tie']['protocol_code_generator + generated code'] = 'correspondence-only: real generator + generated serializers on enumerated single-violation mutants; reference Model/Elab.v + Model/Ser.v'
     quick = tier == 'quick'
     trees, rng = build_trees(C, 24 if quick else 250)
@@ -24,6 +24,7 @@ def run(tier):
                     v = vg.obj(cls, body)
                     ms = list(obj_mutants(R, vg, cls, body, v))
                 except Exception as ex:
+                    C.harness_failure('value-generation', f"{t['name']} {cls}: {type(ex).__name__}: {ex}")
                     continue
                 jobs.append(dict(op='ser', cls=cls, value=v, san=False, valid=True))
                 if len(ms) > (14 if quick else 40):
@@ -36,6 +37,8 @@ def run(tier):
         entries.append(dict(name=t['name'], tree=t['tree'], jobs=jobs, want_sources=True))
     run_entries(C, runner, entries)
     recover_stream(C, entries, 'c16')
+    render_stream(C, entries, 'c16')
+    C.cov['tie']['generated serialize methods (semantics)'] = ('way 1 for generated code: tools/py2stmt.py parses every generated serialize method from the SOURCE TEXT (generic, fail-closed) into the statement language of Model/PyStmt.v; Model/RenderCheck.v checks inside Coq that it equals render_serialize (elab tree); Properties/C02R.v proves that running those statements IS Model/Ser.v, for all objects and writer states')
     C.cov['tie']['generated classes (structure)'] = ('translation validation: tools/gen2instr.py recovers the instruction lists of every generated serialize / deserialize / __init__ from the SOURCE TEXT (fail-closed) and Model/Recover.v compares them with elab of the same tree (vm_compute): the theorems about the elaborated instruction lists apply to the code as emitted, for all objects and bytes')
     # ---- oracle: every declaration-violating mutant must raise SerializationError or ValueError
     nref = nconstr = 0
